@@ -85,7 +85,7 @@ def build(spec: Dict, candles: list, cfg: Optional[Dict] = None):
     cfg = cfg or {}
     common = dict(candles=candles, round_value=spec.get("round_value", 4))
     if cfg.get("tf"):
-        common["timeframe"] = cfg["tf"]
+        common["timeframe"] = gen.tf_arg(cfg["tf"], spec["kind"] + str(len(candles)))
         common["timeframe_fill"] = bool(cfg.get("fill"))
     if cfg.get("ha"):
         common["candlestick_type"] = "HA"
